@@ -284,6 +284,8 @@ func childExplore(t *testing.T, p *Property, job *Job) {
 		sum.Net.Cuts += res.Net.Cuts
 		sum.Net.Kills += res.Net.Kills
 		sum.Net.BytesDelivered += res.Net.BytesDelivered
+		sum.Net.Stalls += res.Net.Stalls
+		sum.Net.PartialWrites += res.Net.PartialWrites
 		if res.LockPairs > sum.LockPairs {
 			sum.LockPairs = res.LockPairs
 		}
